@@ -16,6 +16,12 @@
     missing -> <hex>,...                        ser -> <hex>        serupto <name> -> <hex>
     unser <hex>        -> true|false|error <state>
     recv <name> <content> -> true|false <content|none>     (Token.receive_content on the named token)
+
+  several trees of different keys (the tokens registered with `tok` are shared by all of them):
+    vk <key> <msg> <sig> <0|1>                  keyed signature table
+    view <vname> <key> <cap|default>            fresh TokenTree(public_key=key); genesis = hash(key) (send `h`)
+    offer <vname> <name>  -> <kind> <state>     vverify / vpath <vname> <name> <depth|default>
+    vser <vname> -> <hex>                       vunser <vname> <hex> -> true|false|error <state>
 -/
 import Ipv8.Base.Proto
 import Ipv8.C16.Model
@@ -29,11 +35,19 @@ structure St where
   cap : Nat := 100
   toks : List (String × Token) := []
   tree : Tree := Tree.empty
+  vkTab : List (Bytes × Bytes × Bytes × Bool) := []
+  views : List (String × View) := []
 
 def St.crypto (s : St) : Crypto :=
   { hash := fun x => ((s.hashTab.find? (fun e => e.1 == x)).map (·.2)).getD []
     vfy := fun m sg => ((s.vfyTab.find? (fun e => e.1 == m && e.2.1 == sg)).map (·.2.2)).getD false
     sigLen := s.sigLen }
+
+def St.keyed (s : St) : Keyed :=
+  { hash := s.crypto.hash
+    vfyK := fun k m sg =>
+      ((s.vkTab.find? (fun e => e.1 == k && e.2.1 == m && e.2.2.1 == sg)).map (·.2.2.2)).getD false
+    sigLenK := fun _ => s.sigLen }
 
 def id8 (b : Bytes) : String := toHex (b.take 8)
 
@@ -61,6 +75,9 @@ def step (s : St) (toks : List String) : St × String :=
   let C := s.crypto
   let bad := (s, "bad-op")
   let find (n : String) : Option Token := (s.toks.find? (fun e => e.1 == n)).map (·.2)
+  let K := s.keyed
+  let findV (n : String) : Option View := (s.views.find? (fun e => e.1 == n)).map (·.2)
+  let setV (n : String) (v : View) : St := { s with views := (n, v) :: s.views.filter (fun e => e.1 != n) }
   match toks with
   | ["key", gh, sl] =>
     match ofHex? gh, sl.toNat? with
@@ -96,6 +113,44 @@ def step (s : St) (toks : List String) : St × String :=
       let tr := append C s.tree t
       ({ s with tree := tr }, showState C tr)
     | none => bad
+  | ["vk", k, m, sg, f] =>
+    match ofHex? k, ofHex? m, ofHex? sg with
+    | some k, some x, some y => ({ s with vkTab := (k, x, y, f == "1") :: s.vkTab }, "ok")
+    | _, _, _ => bad
+  | ["view", vn, k, c] =>
+    match ofHex? k, (if c == "default" then some defaultCap else c.toNat?) with
+    | some k, some c => (setV vn (View.fresh k c), "ok")
+    | _, _ => bad
+  | ["offer", vn, n] =>
+    match findV vn, find n with
+    | some v, some t =>
+      let k := gatherKind (K.at v.key) (v.genesis K) v.tree t
+      let v' := v.offer K t
+      (setV vn v', showKind k ++ " " ++ showState (K.at v.key) v'.tree)
+    | _, _ => bad
+  | ["vverify", vn, n, d] =>
+    match findV vn, find n, depth? d with
+    | some v, some t, some d => (s, toString (verify (K.at v.key) (v.genesis K) v.tree t d))
+    | _, _, _ => bad
+  | ["vpath", vn, n, d] =>
+    match findV vn, find n, depth? d with
+    | some v, some t, some d =>
+      (s, ",".intercalate ((rootPath (K.at v.key) (v.genesis K) v.tree t d).map (fun t => id8 (t.id C))))
+    | _, _, _ => bad
+  | ["vser", vn] =>
+    match findV vn with
+    | some v => (s, toHex (serializeAll v.tree))
+    | none => bad
+  | ["vunser", vn, hx] =>
+    match findV vn, ofHex? hx with
+    | some v, some b =>
+      let r := unserializePublic (K.at v.key) (v.genesis K) v.cap v.tree b
+      let flag := match r.2 with
+        | none => "error"
+        | some true => "true"
+        | some false => "false"
+      (setV vn { v with tree := r.1 }, flag ++ " " ++ showState (K.at v.key) r.1)
+    | _, _ => bad
   | ["state"] => (s, showState C s.tree)
   | ["verify", n, d] =>
     match find n, depth? d with
